@@ -584,6 +584,39 @@ func runC03(c *Ctx) {
 		all := sig.Params().At(0)
 		copies := map[string]bool{}
 		appended := false
+		// the copy may sit in a helper that Find hands the full list to (its first []Entry parameter)
+		ast.Inspect(find.Decl.Body, func(n ast.Node) bool {
+			call, ok := n.(*ast.CallExpr)
+			if !ok {
+				return true
+			}
+			callee := p.FuncOf(Callee(info, call))
+			if callee == nil || callee.Pkg != find.Pkg || callee.Decl.Body == nil || callee == find {
+				return true
+			}
+			csig := callee.Obj.Type().(*types.Signature)
+			for i, a := range call.Args {
+				if objOf(info, a) != types.Object(all) || i >= csig.Params().Len() {
+					continue
+				}
+				hp := csig.Params().At(i)
+				ast.Inspect(callee.Decl.Body, func(m ast.Node) bool {
+					as, ok := m.(*ast.AssignStmt)
+					if !ok || len(as.Lhs) != 1 || len(as.Rhs) != 1 {
+						return true
+					}
+					if sel, ok := as.Lhs[0].(*ast.SelectorExpr); ok {
+						if ix, ok := sel.X.(*ast.IndexExpr); ok && objOf(info, ix.X) == types.Object(hp) {
+							if rs, ok := as.Rhs[0].(*ast.SelectorExpr); ok && rs.Sel.Name == sel.Sel.Name {
+								copies[sel.Sel.Name] = true
+							}
+						}
+					}
+					return true
+				})
+			}
+			return true
+		})
 		ast.Inspect(find.Decl.Body, func(n ast.Node) bool {
 			as, ok := n.(*ast.AssignStmt)
 			if !ok || len(as.Lhs) != 1 || len(as.Rhs) != 1 {
@@ -629,6 +662,17 @@ func runC03(c *Ctx) {
 					if fieldSel(pkg.TypesInfo, l, "internal/discovery.Entry", "State") {
 						fi := p.enclosingFunc(as.Pos())
 						_, ok := allowed[fnName(fi)]
+						if !ok && fi != nil {
+							// a helper every caller of which is one of the two finders writes on their behalf
+							callers := p.CallersOf(fi.Obj)
+							all := len(callers) > 0 && len(p.FuncValueUses(fi.Obj)) == 0
+							for _, cs := range callers {
+								if _, isFinder := allowed[fnName(cs.Caller)]; !isFinder {
+									all = false
+								}
+							}
+							ok = all
+						}
 						c.Check(ok, "C03-R5", "store Entry.State in "+fnName(fi), as.Pos(), allowed[fnName(fi)], "Entry.State is written outside the two finders")
 					}
 				}
